@@ -13,6 +13,7 @@ PO(t) == [t |-> t, k |-> N, g |-> N, opt |-> TRUE, b |-> N]
 PQ(t) == [t |-> t, k |-> "k", g |-> N, opt |-> TRUE, b |-> N]
 PB(b) == [t |-> b, k |-> N, g |-> N, opt |-> FALSE, b |-> b]
 B3 == <<PB("ctx"), PB("scope"), PB("prov")>>
+PE(t) == P(t) @@ [emb |-> TRUE]      \* declared as an embedded (anonymous) field of the parameter object
 
 R(id, life, slot, var, shape, po, params) ==
     [id |-> id, life |-> life, slot |-> slot, slot2 |-> 0, var |-> var, shape |-> shape, po |-> po,
@@ -247,12 +248,30 @@ DupDeps == C("dupdeps", <<R("r1", SG, 1, "a", "ctorerr", FALSE, <<>>),
                           R("r3", SG, 3, "a", "ctorerr", FALSE, <<P("S2")>>),
                           R("r4", SG, 0, "a", "ctorerr", FALSE, <<P("S1"), P("S1"), P("S3")>>)>>)
 
-CfgMore == {DupDeps, DiamondPO, DiamondPOKG, Alias2Transient, OptionalSing, GroupTransDeps, GroupMixedOK, AliasGroupAsym}
+\* dependencies declared as EMBEDDED fields of a parameter object (wired like named ones; count for cycles)
+Embedded == C("embedded", <<R("r1", SG, 0, "a", "ctorerr", FALSE, <<>>),
+                            R("r2", TR, 1, "a", "ctorerr", FALSE, <<>>),
+                            R("r3", SC, 2, "a", "ctorerr", TRUE, <<PE("S0"), PE("S1")>>),
+                            R("r4", SG, 3, "a", "ctorerr", TRUE, <<P("S0"), PE("S1")>>)>>)
+CycleEmbedded == C("cycleembedded", <<R("r1", SC, 0, "a", "ctorerr", TRUE, <<PE("S1")>>),
+                                      R("r2", SC, 1, "a", "ctorerr", FALSE, <<P("S0")>>)>>)
+\* a scoped service behind two interfaces; consumers depending on the SECOND interface
+AliasDeps == C("aliasdeps", <<As(R("r1", SC, 0, "a", "ctorerr", FALSE, <<>>), <<"I0", "I1">>),
+                              R("r2", SC, 1, "a", "ctorerr", FALSE, <<P("I1")>>),
+                              R("r3", SC, 2, "a", "ctorerr", TRUE, <<P("I0"), P("I1")>>)>>)
+CaptiveAlias2 == C("captivealias2", <<As(R("r1", SC, 0, "a", "ctorerr", FALSE, <<>>), <<"I0", "I1">>),
+                                      R("r2", SG, 1, "a", "ctorerr", FALSE, <<P("I1")>>)>>)
+CaptiveAlias2Tr == C("captivealias2tr", <<As(R("r1", SC, 0, "a", "ctorerr", FALSE, <<>>), <<"I0", "I1">>),
+                                          R("r2", TR, 1, "a", "ctorerr", TRUE, <<P("I1")>>)>>)
+CycleAlias == C("cyclealias", <<As(R("r1", SC, 0, "a", "ctorerr", FALSE, <<P("S1")>>), <<"I0", "I1">>),
+                                R("r2", SC, 1, "a", "ctorerr", FALSE, <<P("I1")>>)>>)
+
+CfgMore == {Embedded, AliasDeps, DupDeps, DiamondPO, DiamondPOKG, Alias2Transient, OptionalSing, GroupTransDeps, GroupMixedOK, AliasGroupAsym}
 
 Plain == {Basic, Chain, Keyed, Group, GroupScoped, GroupDeps, Multi, MultiTr, OutKN, OutKNSing, Alias1, Alias2,
           Alias2Scoped, Diamond2, Optional, Inits, InitSing, Builtin, InstVal, InstVals} \cup CfgForms \cup CfgMore \cup CfgRemoved
 Defective == {Cycle2, CycleGroup, Captive, CaptiveGroup, MissingDep, GroupMixedCaptive, GroupMixedCaptive2, CycleOptional, MissingKeyed}
-             \cup CfgRemovedDefective
+             \cup CfgRemovedDefective \cup {CycleEmbedded, CaptiveAlias2, CaptiveAlias2Tr, CycleAlias}
 
 Hows == {"err", "panic"}
 \* a scripted error needs a constructor shape that can return one
